@@ -338,7 +338,10 @@ func (s *Sched) dispatch(from *G) {
 			en = append(en, from)
 			fromEnabled = true
 		}
-		for _, g := range s.gs {
+		// the others in round-robin order after from: the default scheduler is
+		// "keep running; when blocked, the next goroutine in cyclic id order"
+		for k := 1; k < len(s.gs); k++ {
+			g := s.gs[(from.id+k)%len(s.gs)]
 			if g == from || g.finished {
 				continue
 			}
@@ -371,11 +374,15 @@ func (s *Sched) dispatch(from *G) {
 		pick := 0
 		if n > 1 {
 			costs := make([]int, n)
+			// delay bounding: every departure from the default scheduler costs 1
+			// (a preemption of a runnable goroutine, or picking another than
+			// the next goroutine when the running one blocks)
 			for i := 1; i < len(en); i++ {
-				if fromEnabled && !s.free(from) && !s.free(en[i]) {
+				if !s.free(from) && !s.free(en[i]) {
 					costs[i] = 1
 				}
 			}
+			_ = fromEnabled
 			if canAdvance {
 				costs[n-1] = s.opts.AdvanceCost
 			}
